@@ -1,5 +1,7 @@
 package yang
 
+import "strconv"
+
 // C15 - numbers print, parse, convert and compare as exact decimal arithmetic does.
 // Units: types_builtin.go Number.{String,Less,Equal,Int,Trunc,frac}, ParseInt, ParseDecimal,
 // FromInt, FromUint. Oracle: exact integers (mInt). See DESIGN.md section 3 (C15).
@@ -159,4 +161,33 @@ func H15d() {
 			check(!fits, "ParseDecimal rejects only what does not fit the precision or 64 bits")
 		}
 	}
+}
+
+// H15f: range-checked integer arguments (yang.go asRangeInt) at their use site:
+// `fraction-digits V` with V the decimal spelling of an arbitrary 64-bit magnitude with optional
+// sign is accepted exactly for 1..18 and then is the precision of the type - never a wrapped value.
+func H15f() {
+	neg := symBool()
+	v := symU64()
+	val := mU(v)
+	lit := strconv.FormatUint(v, 10)
+	if neg {
+		lit = "-" + lit
+		val = mNeg(val)
+	}
+	src := `module m { namespace "urn:m"; prefix m; leaf l { type decimal64 { fraction-digits ` + lit + `; } } }`
+	note(src)
+	ms, lerrs := hLoad(src)
+	check(len(lerrs) == 0, "the module parses")
+	errs := ms.Process()
+	inRange := symAnd(mLe(mI(1), val), mLe(val, mI(18)))
+	if len(errs) > 0 {
+		reach("rejected")
+		check(symNot(inRange), "fraction-digits 1..18 is accepted")
+		return
+	}
+	reach("accepted")
+	check(inRange, "a fraction-digits argument outside 1..18 is an error - the text is converted without wrapping")
+	e := ToEntry(ms.Modules["m"]).Dir["l"]
+	check(e != nil && e.Type != nil && mEq(mI(int64(e.Type.FractionDigits)), val), "the type has exactly the written precision")
 }
